@@ -255,12 +255,38 @@ def ground_shipped(pr, repo):
     pr.add(Ground('GR: shipped cut-off look-ups symmetric for all %d x %d creatable type pairs' % (len(side), len(side)), symm))
 
 
+def task_read_file(pr, repo):
+    """RF: read_parameter_file hands EVERY line of the file to parse_line, once each and in file order (a later line overrides an
+    earlier one; a line that repeats an earlier one is not redundant when something was declared in between)."""
+    ex = Executor(repo)
+    fi = repo.func('propka.input.read_parameter_file')
+    pr.under_contract(fi)
+    files = {'A-B-A defaults': ['sidechain_cutoffs default 3.0 4.0\n', 'sidechain_cutoffs default 2.0 2.5\n',
+                                'sidechain_cutoffs default 3.0 4.0\n'],
+             'duplicates, blank and comment lines': ['ignore_residues HOH\n', '\n', '# comment\n', 'ignore_residues HOH\n',
+                                                     'desolv_cutoff 20.0\n', 'desolv_cutoff   20.0\n', 'desolv_cutoff 20.0'],
+             'empty file': []}
+    for what, lines in files.items():
+        def thunk(ex, ctx, what=what, lines=lines):
+            got = []
+            h = record('handle', None)
+            h.attrs['__iter_items__'] = list(lines)
+            ex.contracts['propka.input.open_file_for_reading'] = lambda ex_, c_, f_, a, k, so: h
+            params = record('P', None)
+            from pyvc.core import Builtin
+            params.attrs['parse_line'] = Builtin('parse_line', lambda ex_, line: got.append(line))
+            r = ex.call_function(fi, ['my.cfg', params])
+            ctx.oblige('RF[%s]: every line reaches parse_line exactly once, unchanged and in file order; the same Parameters object is '
+                       'returned' % what, got == list(lines) and r is params)
+        pr.explore(ex, thunk, 'read_parameter_file ' + what)
+
+
 def run(pr, repo):
     pr.level = 'other'
     pr.explanation = ('deductive proof of the table invariants (VC) + exhaustive ground evaluation of the shipped file; '
                       'level is "other" because 3 recorded known findings (D10a-c) mean the completeness clause does NOT hold on this tree: '
                       'their obligations are refuted on every run and reported as KNOWN-FINDING, so discharged < obligations')
-    pr.parallel([(task_pairwise, ()), (task_interaction, ()), (task_squared, ())])
+    pr.parallel([(task_pairwise, ()), (task_interaction, ()), (task_squared, ()), (task_read_file, ())])
     ground_shipped(pr, repo)
     pr.assumptions += ['PW: pre-states range over the universe {g1, g2, other}; entries of further names behave like "other" '
                        '(add() touches only the two keys it is given)',
